@@ -22,8 +22,8 @@ theorem C05_apply_refines (fs : FS) (cfg : Cfg) (range : List Series.Entry) :
     | .ok (st, k, rejs), .ok (t, k', rejs') =>
         k = k' ∧ rejs = rejs' ∧ (cfg.dryRun = false → SameTree fs (ofMem st.mem) t)
     | .error e, .error e' => e = e'
-    | _, _ => False := by
-  sorry
+    | _, _ => False :=
+  applyLoop_sim fs cfg range 0 {} [] (SameTree.refl fs _) memDE_nil (fun s hs => by cases hs)
 
 /-- the number of names appended to `.pc/applied-patches` is `k`, and the exit status is 0 exactly when
 the whole range applied -/
@@ -32,7 +32,32 @@ theorem C05_exit_and_names (cfg : Cfg) (w : World) (range : List Series.Entry) (
     ((pushRange cfg w range).1 = .allApplied ∨ (pushRange cfg w range).1 = .error → True) ∧
     ((pushRange cfg w range).1 = .allApplied → final = range.length) ∧
     ((pushRange cfg w range).1 = .notAll → final ≠ range.length) := by
-  sorry
+  have key : (pushRange cfg w range).1 = .error ∨
+      (pushRange cfg w range).1 = (if final == range.length then .allApplied else .notAll) := by
+    unfold pushRange
+    rw [h]
+    simp only
+    cases cfg.dryRun with
+    | true => right; rfl
+    | false =>
+      simp only [Bool.false_eq_true, if_false]
+      cases saveApplied w' (List.map (fun x => x.name) (List.take final range)) with
+      | error e => left; rfl
+      | ok w'' => right; rfl
+  refine ⟨fun _ => trivial, ?_, ?_⟩
+  · intro ha
+    rw [ha] at key
+    rcases key with key | key
+    · cases key
+    · by_cases hf : final = range.length
+      · exact hf
+      · simp [hf] at key
+  · intro hn
+    rw [hn] at key
+    rcases key with key | key
+    · cases key
+    · intro hf
+      simp [hf] at key
 
 #print axioms C05_apply_refines
 #print axioms C05_exit_and_names
